@@ -478,6 +478,15 @@ CheckBuild(i) ==
               IF r.text = r.text2 THEN TRUE ELSE Report(i, "build-nondeterministic", [route |-> r.route]) /\ FALSE})
        : g \in 1..Len(e.r)})
 
+\* ---- C19: the table built by toml!{...} at compile time equals the parsed table ----
+CheckMacro(i) ==
+  LET e == Ev[i]
+      p == ParseDocument(e.text)
+  IN IF p.res # "ok" THEN TRUE
+     ELSE AllTrue({
+       IF SameV(p.tree, e.macro, FALSE) THEN TRUE ELSE Report(i, "macro-tree", [expected |-> Plain(p.tree)]) /\ FALSE,
+       IF e.parsed_ok /\ SameV(p.tree, e.parsed, FALSE) THEN TRUE ELSE Report(i, "macro-parsed-tree", [ok |-> e.parsed_ok]) /\ FALSE})
+
 U1Note(i) == Ev[i].ev = "parse" /\ ParseDocument(Ev[i].text).res = "u1" => PrintT(ToJson([u1 |-> i]))
 
 CheckEvent(i) ==
@@ -498,6 +507,7 @@ CheckEvent(i) ==
     [] Ev[i].ev = "serde" -> CheckSerde(i)
     [] Ev[i].ev = "visit" -> CheckVisit(i)
     [] Ev[i].ev = "build" -> CheckBuild(i)
+    [] Ev[i].ev = "macro" -> CheckMacro(i)
     [] OTHER -> Report(i, "unknown-event", Ev[i].ev) /\ FALSE
 
 Init == lvl = 0 /\ idx = 0
